@@ -25,6 +25,7 @@ from . import common as C
 
 PID = "C10"
 META = {
+    "ready": True,
     "category": "proof",
     "technique": "Lean 4 proofs over an executable model of the numeric tower (fixnum / bignum / 32-bit ratio / big ratio with the IntoSteelVal canonicalisation and the checked-then-promote case analysis of numbers.rs), refinement to Lean's Rat for all operands; arm tables and repair flags regenerated from the Rust source; correspondence of the real engine with model and specification over boundary operand tuples through 8-12 call shapes; mixed exact/inexact arithmetic compared with IEEE-754 / exact-value reference results (test level)",
     "level_text": "Theorems (SteelVerif/C10/Props.lean), for ALL canonical exact operands of any magnitude: add, subtract, negate, multiply, divide, quotient, remainder, modulo, abs, gcd, lcm, expt (exact exponent), numerator, denominator and exact-integer-sqrt of the model return a value that denotes the mathematically exact result (Lean Rat / Int) and is canonical (fixnum iff it fits 64 bits, ratio reduced with denominator > 1, 32-bit ratio iff both parts fit, integral ratios are integers); division by zero is an error exactly when the divisor is zero; = < > <= >= decide the order of the denoted values; two canonical values that denote the same number are identical; the specialised immediate-operand paths equal the generic ones. Where the code is defective (abs / reciprocal / expt on the most negative 64-bit and 32-bit values, 32-bit ratio powers, negative bases with negative exponents) the full statement is proved for the repaired code and a guarded `_partial` statement plus a `decide`d counterexample for the code as it is; flags extracted from the Rust source say which applies to the current tree. The model is tied to the Rust on every run by the translator (every pair of exact kinds has a computing match arm in add_two, multiply_two, number_equality, partial_cmp, ...) and by executing the real engine on boundary operand tuples through every call shape and comparing printed results with model and specification. Mixed exact/inexact operations and comparisons are NOT proved: they are tested against 'convert with round-to-nearest, then IEEE binary64' and against the exact values.",
